@@ -129,6 +129,19 @@ _MOD = None
 _CTX = None
 
 
+def _die_with_parent():
+    """pool initializer: a worker must not outlive the runner (a runner killed by a time limit would otherwise leave
+    workers behind that keep a CPU busy for ever if the code under test loops)"""
+    try:
+        import ctypes
+        import signal
+        ctypes.CDLL(None).prctl(1, signal.SIGKILL)      # PR_SET_PDEATHSIG
+        if os.getppid() == 1:
+            os._exit(1)
+    except Exception:      # noqa
+        pass
+
+
 def _worker(args):
     idx, shard = args
     try:
@@ -173,7 +186,7 @@ def explore(mod, ctx):
             results[i] = _worker((i, shards[i]))[1]
     else:
         mpx = multiprocessing.get_context("fork")
-        with mpx.Pool(min(ctx.workers, len(shards))) as pool:
+        with mpx.Pool(min(ctx.workers, len(shards)), initializer=_die_with_parent) as pool:
             for i, acc in pool.imap_unordered(_worker, [(i, shards[i]) for i in order]):
                 results[i] = acc
     total = Acc()
